@@ -273,6 +273,7 @@ func (e *Engine) checkTupleToSubjectSet(
 				x.WithToken(prevPage))
 			if err != nil {
 				g.Add(checkgroup.ErrorFunc(err))
+				resultCh <- g.Result()
 				return
 			}
 
